@@ -437,6 +437,15 @@ def assignedTwice (ls : List Line) : List Str :=
     | _ => none
   dedup (names.filter fun n => names.count n > 1)
 
+/-- the output-section names a script opens more than once (`Ld.hdrCount n script > 1`: the second hypothesis of
+`C03.final_vram_start`, Props/FinalSecs.lean). -/
+def headersTwice (ls : List Line) : List Str :=
+  let names := ls.filterMap fun l => match l with
+    | .outHdr n _ _ _ _ => some n
+    | .singleEntry s _ => some s
+    | _ => none
+  dedup (names.filter fun n => names.count n > 1)
+
 /-- op `ld`: run the linker semantics (Slinkyv.Ld) on a script text and an object table.
 request: script, objects = [[path, member|null, sec, size, align], …] in command-line order,
 defsyms = [[name, value], …]. -/
@@ -464,6 +473,7 @@ def handleLd (req : Json) : Json :=
     ("stable", .bool (Ld.stable objs defs ls)),
     ("emptied", .bool im.emptied),
     ("assigned_twice", .arr ((assignedTwice ls).map fun n => Json.str (t2s n)).toArray),
+    ("headers_twice", .arr ((headersTwice ls).map fun n => Json.str (t2s n)).toArray),
     ("syms", Json.mkObj (im.syms.filterMap fun kv => match kv.2 with | some v => some (t2s kv.1, jn v) | none => none)),
     ("unresolved", .arr (im.syms.filterMap fun kv => match kv.2 with | none => some (Json.str (t2s kv.1)) | some _ => none).toArray),
     ("secs", .arr (im.secs.map fun o => Json.mkObj [("name", .str (t2s o.name)), ("addr", jn o.addr), ("size", jn o.size),
